@@ -2,6 +2,7 @@
 from __future__ import annotations
 
 import atexit
+import functools
 import collections
 import collections.abc
 import itertools
@@ -47,6 +48,9 @@ TRUSTED = [
     "hand-written model coq/Model/Embedders.v of EmbeddingTensorMapper.forward / TextTokenizationTensorMapper.forward / "
     "the converter's per-column config lookup, tied to /repo by this run's observational correspondence (recorded "
     "calls, assembled rows, raise/no-raise)",
+    "the mini-batch loop is modelled as written (Python range(0, n, bs) + list slicing, Model/Embedders.v "
+    "batch_slices) and PROVED equal to the consecutive chunks (c16_batch_loop_is_chunks); the correspondence evaluates "
+    "that loop on every case",
     "modelled primitives: pandas Series.tolist() per dtype (str dtype stores missing values as NaN), Python str(), "
     "list slicing, torch.cat, MultiNestedTensor.from_tensor_mat as a column of cells",
     "harness/c16.py (generator, recording stubs, plain-Python chunking oracle, Coq literal printer)",
@@ -61,6 +65,38 @@ ASSUMPTIONS = [
     "on every run: the stubs record the raw argument objects and the oracle requires type(args) is list and "
     "type(x) is str for every element of every call (keys nonlist-arg:* / nonstr-arg:*); which config family serves "
     "which stype (_get_mapper's dispatch) is likewise observed (each column has its own recording stub), not modelled",
+]
+
+# Clause-by-clause coverage of the property statement (PART A audit): clause -> oracle keys that judge it
+# -> generator kinds that exercise it.  sanity() fails closed when a generator kind is never drawn.
+CLAUSES = [
+    ("called only with lists of Python strings",
+     ["nonlist-arg:<stype>", "nonstr-arg:<stype>"],
+     ["all three stypes x callable given as object / function / lambda / bound method / functools.partial; image "
+      "embedders with overridden and with the library's default forward_retrieve (real PNG files)"]),
+    ("a missing cell is passed as its string rendering, never as a float or None",
+     ["nonstr-arg:*", "calls:* (expected rendering 'None' / 'nan' / '<NA>')"],
+     ["missing kinds None / np.nan / float('nan') / pd.NA x dtypes object / str / string / category"]),
+    ("covering the column's rows exactly once, in row order, in consecutive chunks of at most the configured batch "
+     "size (a single call when no batch size is set)",
+     ["calls:<stype>:<variant>:batched|unbatched", "image-embed-calls", "image-embed-args"],
+     ["bs_vs_n: None, bs>n, bs=n, bs|n, rem1, rem>1; batch_size given by keyword / positionally / left at its default "
+      "in the Config and in the mapper constructors; five index labelings incl. duplicated"]),
+    ("outputs are assembled in the same row order: row i of the embedding / token tensors is the callable's output "
+     "for row i's text",
+     ["rows:*", "dtype:*", "column-missing:*", "raises:*", "history-aborted"],
+     ["1-3 columns, per-column and shared configs, embedder output dtypes float32/float64/int64/float16, device "
+      "omitted / None / torch.device / 'cpu' by keyword and positionally, repeated image paths"]),
+    ("identically for batched and unbatched operation",
+     ["rows:*:batched vs rows:*:unbatched against one batch-size independent reference", "dtype:*"],
+     ["every (stype, dtype, tokenizer variant) x batch_size None / 1..n+1 (exhaustive tier)"]),
+    ("and for both tokenizer output formats (one mapping of 2-D tensors, or a list of per-sentence mappings)",
+     ["rows:text_tokenized:list/*", "rows:text_tokenized:dict/*", "raises:text_tokenized:*"],
+     ["tok variants list/none, list/fixed, dict/batch, dict/fixed x mapping flavours dict / UserDict / "
+      "MappingProxyType / custom Mapping"]),
+    ("(history) every use of a mapper object / of the dataset's converter behaves like a fresh one",
+     ["*:reuse"], ["via mapper: the same mapper object on 2-3 Series; via dataset: materialize then "
+                   "convert_to_tensor_frame(df2)"]),
 ]
 
 STYPES = ["text_embedded", "image_embedded", "text_tokenized"]
@@ -241,12 +277,63 @@ def make_stub(col):
     return TokenizerStub(col["tok"], col["nkeys"], col.get("map_kind", "dict"))
 
 
+CALLABLE_FORMS = ["object", "function", "lambda", "method", "partial"]
+DEVICE_FORMS = ["omitted", "none", "device", "str"]
+
+
+def as_callable(col, stub):
+    """The user callable in the form the case asks for (a class instance, a plain function, a lambda, a bound
+    method, a functools.partial): all of them are `Callable[[list[str]], ...]`."""
+    form = col.get("callable_form", "object")
+    if form == "function":
+        def user_function(xs):
+            return stub(xs)
+        return user_function
+    if form == "lambda":
+        return lambda xs: stub(xs)
+    if form == "method":
+        return stub.__call__
+    if form == "partial":
+        return functools.partial(stub)
+    return stub
+
+
+def device_kw(case):
+    form = case.get("device_form", "omitted")
+    if form == "none":
+        return {"device": None}
+    if form == "device":
+        return {"device": torch.device("cpu")}
+    if form == "str":
+        return {"device": "cpu"}
+    return {}
+
+
 def make_cfg(col, stub):
-    if col["stype"] == "text_embedded":
-        return TextEmbedderConfig(text_embedder=stub, batch_size=col["batch_size"])
-    if col["stype"] == "image_embedded":
-        return ImageEmbedderConfig(image_embedder=stub, batch_size=col["batch_size"])
-    return TextTokenizerConfig(text_tokenizer=stub, batch_size=col["batch_size"])
+    cls, name = {"text_embedded": (TextEmbedderConfig, "text_embedder"),
+                 "image_embedded": (ImageEmbedderConfig, "image_embedder"),
+                 "text_tokenized": (TextTokenizerConfig, "text_tokenizer")}[col["stype"]]
+    f = as_callable(col, stub)
+    form = col.get("cfg_form", "kw")
+    if form == "pos":
+        return cls(f, col["batch_size"])                       # Config(callable, batch_size)
+    if form == "bs_omitted" and col["batch_size"] is None:
+        return cls(**{name: f})                                # batch_size left at its default (None)
+    return cls(**{name: f, "batch_size": col["batch_size"]})
+
+
+def make_mapper(col, stub):
+    f = as_callable(col, stub)
+    form = col.get("cfg_form", "kw")
+    if col["stype"] == "text_tokenized":
+        if form == "pos":
+            return TextTokenizationTensorMapper(f, col["batch_size"])
+        return TextTokenizationTensorMapper(text_tokenizer=f, batch_size=col["batch_size"])
+    if form == "pos":
+        return EmbeddingTensorMapper(f, col["batch_size"])
+    if form == "bs_omitted" and col["batch_size"] is None:
+        return EmbeddingTensorMapper(embedder=f)
+    return EmbeddingTensorMapper(embedder=f, batch_size=col["batch_size"])
 
 
 # ------------------------------------------------------------------ generation
@@ -260,9 +347,11 @@ def gen_col(rng, name, st, n, bs=None, variant=None, miss_p=None, dtype=None, na
     miss_p = rng.pick([0.0, 0.2, 0.5, 1.0]) if miss_p is None else miss_p
     pool = [gen_string(rng) for _ in range(rng.randint(1, 4))] if rng.chance(0.3) else None
     cells = [None if rng.chance(miss_p) else (rng.pick(pool) if pool else gen_string(rng)) for _ in range(n)]
-    col = {"name": name, "stype": st, "dtype": dtype or rng.pick(["object", "str", "object", "str", "string"]), "cells": cells,
+    col = {"name": name, "stype": st, "dtype": dtype or rng.pick(["object", "str", "object", "str", "string", "category"]), "cells": cells,
            "nan_kind": nan_kind or rng.pick(["none", "nan", "pynan", "NA"]),
            "batch_size": (None if rng.chance(0.25) else rng.randint(1, n + 1)) if bs is None else (bs or None)}
+    col["cfg_form"] = rng.pick(["kw", "pos", "bs_omitted"])
+    col["callable_form"] = rng.pick(CALLABLE_FORMS)
     if st == "text_tokenized":
         col["tok"] = list(variant or rng.pick(TOK_VARIANTS))
         col["nkeys"] = rng.randint(1, 3)
@@ -301,12 +390,14 @@ def gen_case(rng):
                         if f in same[0]:
                             c[f] = same[0][f]
     case = {"n": n, "index": rng.pick(["range", "range", "offset", "perm", "string", "dup"]), "cols": cols,
-            "via": via, "shared": shared, "extra_num": via == "dataset" and rng.chance(0.3)}
+            "via": via, "shared": shared, "extra_num": via == "dataset" and rng.chance(0.3),
+            "device_form": rng.pick(DEVICE_FORMS), "device_positional": rng.chance(0.5)}
     # image columns holding paths of real files, served by a subclass that relies on the library's default retrieval
     # (repeated paths within a chunk are the point; a missing path cannot be opened, so no missing cells)
     for c in cols:
         if HAVE_PIL and c["stype"] == "image_embedded" and "image_embedded" not in shared and rng.chance(0.45):
             c["real_images"] = True
+            c["callable_form"] = "object"       # must stay the ImageEmbedder subclass instance
             pool = rng.sample(range(N_IMAGES), rng.randint(1, 3))
             c["cells"] = [f"img{rng.pick(pool)}.png" for _ in range(n)]
     if via == "dataset":
@@ -352,6 +443,7 @@ def exhaustive(rng):
                     col = gen_col(rng, "txt", st, n, bs=bs, variant=None if real else variant, miss_p=0.0, dtype=dtype)
                     if real:
                         col["real_images"] = True
+                        col["callable_form"] = "object"
                         col["cells"] = [f"img{(r * r) % 3}.png" for r in range(n)]       # repeated paths
                     else:
                         col["cells"][rng.randint(0, n - 1)] = None
@@ -389,7 +481,10 @@ def build_df(case):
         col = by[name]
         mv = missing_value(col["nan_kind"])
         vals = [mv if c is None else cell_text(col, c) for c in col["cells"]]
-        data[name] = pd.Series(vals, dtype={"str": "str", "string": "string"}.get(col["dtype"], object))
+        if col["dtype"] == "category":
+            data[name] = pd.Series(vals, dtype=object).astype("category")
+        else:
+            data[name] = pd.Series(vals, dtype={"str": "str", "string": "string"}.get(col["dtype"], object))
     if case.get("extra_num"):
         data["num"] = pd.Series([float(i) for i in range(case["n"])], dtype=float)
     df = pd.DataFrame(data)
@@ -446,8 +541,7 @@ def run(case):
         # one mapper object per column, used for every frame of the history
         mappers = {}
         for col in case["cols"]:
-            cls = TextTokenizationTensorMapper if col["stype"] == "text_tokenized" else EmbeddingTensorMapper
-            mappers[col["name"]] = cls(stubs[col["name"]], col["batch_size"])
+            mappers[col["name"]] = make_mapper(col, stubs[col["name"]])
         for v in vs:
             df = build_df(v)
             o = {"cols": {}}
@@ -456,7 +550,7 @@ def run(case):
                 mark = stub_mark(stub)
                 rec = {}
                 try:
-                    out = mappers[col["name"]].forward(df[col["name"]])
+                    out = mappers[col["name"]].forward(df[col["name"]], **device_kw(case))
                     if col["stype"] == "text_tokenized":
                         rec["rows"] = {k: [r[0] for r in D.read_feat(x)] for k, x in out.items()}
                     else:
@@ -494,10 +588,18 @@ def run(case):
             try:
                 if k == 0:
                     ds = Dataset(df, col_to_stype, **kw)
-                    ds.materialize()
+                    dk = device_kw(case)
+                    if dk and case.get("device_positional"):
+                        ds.materialize(dk["device"])
+                    else:
+                        ds.materialize(**dk)
                     tf = ds.tensor_frame
                 else:
-                    tf = ds.convert_to_tensor_frame(df)
+                    dk = device_kw(case)
+                    if dk and case.get("device_positional"):
+                        tf = ds.convert_to_tensor_frame(df, dk["device"])
+                    else:
+                        tf = ds.convert_to_tensor_frame(df, **dk)
                 tfj = D.read_tf(tf)
                 emb = tf.feat_dict.get(torch_frame.embedding)
                 edt = None if emb is None else str(emb.values.dtype).replace("torch.", "")
@@ -531,6 +633,8 @@ def rendered(col):
             out.append("nan")          # the NaN-backed native string dtype holds NaN for every missing value
         elif col["dtype"] == "string":
             out.append("<NA>")         # the NA-backed string dtype holds pd.NA
+        elif col["dtype"] == "category":
+            out.append("nan")          # a categorical column holds NaN for every missing value
         else:
             out.append({"none": "None", "nan": "nan", "pynan": "nan", "NA": "<NA>"}[col["nan_kind"]])
     return out
@@ -735,6 +839,15 @@ def stats(cases, obss):
         d["index"][c["index"]] = d["index"].get(c["index"], 0) + 1
         d["n"][c["n"]] = d["n"].get(c["n"], 0) + 1
         d["shared"] += bool(c["shared"])
+        fm = d.setdefault("forms", {})
+
+        def bump(k):
+            fm[k] = fm.get(k, 0) + 1
+        bump(f"device:{c['via']}:{c.get('device_form', 'omitted')}" +
+             (":pos" if c["via"] == "dataset" and c.get("device_positional") and c.get("device_form", "omitted") != "omitted" else ""))
+        for col in c["cols"]:
+            bump(f"cfg:{c['via']}:{col.get('cfg_form', 'kw')}" + (":bs=None" if col["batch_size"] is None else ":bs=int"))
+            bump(f"callable:{col['stype']}:{col.get('callable_form', 'object')}")
         h = f"{c['via']}:{len(c.get('more', []))}"
         d.setdefault("history", {})[h] = d.setdefault("history", {}).get(h, 0) + 1
         if o and ("exc" in o or any("exc" in r for r in o.get("cols", {}).values())):
@@ -799,6 +912,32 @@ def sanity(cases, obss):
     for via in (["mapper"] if HAVE_MAPPERS else []) + ["dataset"]:
         if not (d.get("history", {}).get(f"{via}:1", 0) + d.get("history", {}).get(f"{via}:2", 0)):
             probs.append(f"no history (second use of the same mapper / converter) via {via}")
+    need = [f"device:dataset:{f}" for f in ("omitted", "none", "device", "str")] + \
+           [f"device:dataset:{f}:pos" for f in ("none", "device", "str")] + \
+           [f"cfg:dataset:{f}" for f in ("kw:bs=None", "kw:bs=int", "pos:bs=None", "pos:bs=int", "bs_omitted:bs=None")] + \
+           [f"callable:{st}:{f}" for st in STYPES for f in CALLABLE_FORMS]
+    if HAVE_MAPPERS:
+        need += [f"device:mapper:{f}" for f in DEVICE_FORMS] + \
+                [f"cfg:mapper:{f}" for f in ("kw:bs=None", "kw:bs=int", "pos:bs=None", "pos:bs=int", "bs_omitted:bs=None")]
+    for k in need:
+        if not d.get("forms", {}).get(k):
+            probs.append(f"argument form {k} never drawn")
+    if not d["dtype"].get("category"):
+        probs.append("dtype category never drawn")
+    import inspect
+    sigs = {"EmbeddingTensorMapper.__init__": (EmbeddingTensorMapper.__init__, ["self", "embedder", "batch_size"]),
+            "EmbeddingTensorMapper.forward": (EmbeddingTensorMapper.forward, ["self", "ser", "device"]),
+            "TextTokenizationTensorMapper.__init__": (TextTokenizationTensorMapper.__init__, ["self", "text_tokenizer", "batch_size"]),
+            "TextTokenizationTensorMapper.forward": (TextTokenizationTensorMapper.forward, ["self", "ser", "device"]),
+            "TextEmbedderConfig": (TextEmbedderConfig.__init__, ["self", "text_embedder", "batch_size"]),
+            "TextTokenizerConfig": (TextTokenizerConfig.__init__, ["self", "text_tokenizer", "batch_size"]),
+            "ImageEmbedderConfig": (ImageEmbedderConfig.__init__, ["self", "image_embedder", "batch_size"]),
+            "ImageEmbedder.__call__": (ImageEmbedder.__call__, ["self", "path_to_images"]),
+            "Dataset.materialize": (Dataset.materialize, ["self", "device", "path", "col_stats"])} if HAVE_MAPPERS else {}
+    for name, (fn, want) in sigs.items():
+        got = list(inspect.signature(fn).parameters)
+        if got != want:
+            probs.append(f"public signature of {name} changed: {got}; the audit of drawn argument forms must be redone")
     for fmt in ("list", "dict"):
         for mk in MAP_KINDS:
             for mode in ("batched", "unbatched"):
@@ -911,7 +1050,7 @@ def coq_term_frame(case, obs):
                 got = rec["calls"]
             calls = C.clist(got, lambda call: cstrs([e if isinstance(e, str) else f"<nonstr:{e['nonstr']}>"
                                                      for e in call["elems"]]))
-            dt = {"str": "DStr", "string": "DStringNA"}.get(c["dtype"], "DObject")
+            dt = {"str": "DStr", "category": "DStr", "string": "DStringNA"}.get(c["dtype"], "DObject")
             raw = C.clist(c["cells"], lambda v: ccell(c, v))
             failed = "exc" in obs or "exc" in rec or rec.get("missing_in_frame") or "rows" not in rec
             if st == "text_tokenized":
